@@ -1,11 +1,13 @@
 (** C06 - The channel is a 5-slot FIFO: nothing invented, duplicated, reordered or lost early.
-    Memory model of these statements: SC interleaving of the shim-level operations (every
-    schedule, any number of senders/receivers spawned at any time, any frame stepping at any time,
-    any spurious weak-CAS failures).  The release/acquire view semantics is covered by C07/C08
-    ([C07_race_free], [C08_no_panic_ra]: ownership, no panic, no race for every read-from choice). *)
+    Two memory models: [C06_fifo], [C06_effects_ordered], [C06_drop_only_when_full],
+    [C06_empty_only_when_empty] are about SC interleavings of the shim-level operations (every
+    schedule, any number of senders/receivers spawned at any time, any frame stepping at any
+    time, any spurious weak-CAS failures); [C06_fifo_ra] and [C06_gives_up_on_zero_ra_partial]
+    are about the release/acquire view semantics with the orderings extracted from the source
+    (every schedule AND every read-from choice). *)
 From Coq Require Import List Arith NArith ZArith Bool.
 From SH Require Import base.Pool gen.Extracted_channel channel.Defs channel.Word channel.Model channel.Skeleton
-  channel.Inv channel.Steps channel.Fifo channel.Account channel.Reach.
+  channel.Inv channel.Steps channel.Fifo channel.Account channel.Reach channel.ModelRA channel.InvRA channel.FifoRA.
 Import ListNotations.
 Local Open Scope N_scope.
 
@@ -68,6 +70,38 @@ Theorem C06_empty_only_when_empty : forall ls s fs es k f c s' f' es',
   fkind f = KRecv -> fpc f <> PDone -> fpc f' = PDone -> got f' = None ->
   qf s = 0 /\ decode (qf s) = [] /\ map fst (g_in s) = g_out s /\ tick f' = None.
 Proof. exact empty_only_when_empty. Qed.
+
+(** FIFO under the declared memory orderings (view semantics of ModelRA.v; [grun] is the run of
+    that model - first conjunct - observed by a ghost recorder): the indices dequeued from `full`
+    are a prefix of those enqueued and the rest is exactly the LAST message of `full`; a recv that
+    returns v has the serial number t of the send of v (cell integrity across stale reads);
+    serial numbers are unique per kind. *)
+Theorem C06_fifo_ra : forall ls,
+  let w := grun ginit_world ls in
+  let s := fst (fst w) in let fs := snd (fst w) in let g := snd w in
+  fst w = rrun rinit_world ls /\
+  map fst (gi g) = go g ++ decode (mval (lastm (mf s))) /\
+  (forall k f v, nth_error fs k = Some f -> rkind f = KRecv -> rgot f = Some v ->
+     exists t i, tick_of g k = Some t /\ nth_error (gi g) t = Some (i, v) /\ nth_error (go g) t = Some i) /\
+  (forall k f v t, nth_error fs k = Some f -> rkind f = KSend v -> tick_of g k = Some t ->
+     nth_error (gi g) t = Some (ridx f, v) /\ rpcf f = RDone) /\
+  (forall j k f f2 t, j <> k -> nth_error fs j = Some f -> nth_error fs k = Some f2 ->
+     (rkind f = KRecv <-> rkind f2 = KRecv) -> tick_of g j = Some t -> tick_of g k = Some t -> False).
+Proof. exact fifo_ra. Qed.
+
+(** PARTIAL (view semantics): a send is discarded / a recv returns None only on reading, at or
+    after its view, a message of its queue whose word is 0 (or, before touching the channel, the
+    null Slot pointer).  That at the time of that message all five slots were outstanding, and
+    the happens-before clause of the property text, are proved only for SC interleavings above. *)
+Theorem C06_gives_up_on_zero_ra_partial : forall ls k f c s' f',
+  let s := fst (rrun rinit_world ls) in let fs := snd (rrun rinit_world ls) in
+  nth_error fs k = Some f -> rstep s f c = (s', f') ->
+  rpcf f = RDeqLoad \/ rpcf f = RDeqCas -> rpcf f' = RDone ->
+  exists t m, (rview f (qloc (deq_q (rkind f))) <= t)%nat /\
+              nth_error (msgs s (deq_q (rkind f))) t = Some m /\ mval m = 0.
+Proof.
+  intros ls k f c s' f' s fs Hk Hs Hpc Hd. eapply ra_gives_up_on_zero; eauto. apply ra_reachable_inv.
+Qed.
 
 (** Non-vacuity: six sends run one after the other - the sixth is discarded; then six receives
     return the five values in order and None. *)
